@@ -345,7 +345,7 @@ theorem bnaf_inverse_tolerance (act : ℝ → ℝ) {dim depth bd : Nat} {Ls : Li
   have hε0 : 0 ≤ ε := le_trans htol.le (le_trans (le_max_left _ _) hε)
   unfold autoregressiveBisection
   apply Bisection.scan_error_bound ht xs hxs (NetLawful.bnaf_root act hok cond xs) ε hε0 _ _ dim 0 _ (by omega)
-    (by simp) (fun j hj => absurd hj (by omega))
+    (by simp [arInit]) (fun j hj => absurd hj (by omega))
   intro g r hg hr ⟨i, hi, hri⟩
   obtain ⟨v, hv, hvr⟩ := Bisection.bisectionSolver_accurate h tol max_iter hmi D _ fuel hf1 hf2 g r hg hr
     (xs.getD i 0) (hxsD i hi) hD hri
